@@ -32,6 +32,8 @@ def classify(st):
         return 'C16-prune-suppressed-waiters-tick-crash'
     if st.get('tick_crashing'):
         return 'unclassified: _tick raises in ' + str(st.get('tick_crashing'))
+    if st.get('stack', 0) > 0 and st.get('late_cancel'):
+        return 'C16-cancel-after-wakeup-loses-wakeup'
     if st.get('pending_conns', 0) > 0:
         return 'unclassified: pending_conns > 0 with no connect in flight (phantom pending)'
     if st.get('orphans', 0) > 0:
